@@ -305,6 +305,94 @@ fn sync_steps<C: Cfg>(report: &Report, lowers: &[u128], ranges: &[u128], letters
         "letters": letters.len(), "real_encode_decode_calls": steps, "invalid_data_points": invalid, "renormalising_steps": renorm}));
 }
 
+/// the batch / fallible / iid forms of the range coder (default methods of `Encode` / `Decode`) equal the
+/// per-symbol loop: same encoder afterwards (bulk, state, held-back words), same decoded symbols, same decoder
+/// afterwards. Start states: the encoders after every sequence of length <= 2 over the carry alphabet (so that
+/// batches start and end in the inverted situation too); batches: every sequence over the P=2 pairs up to `depth`.
+fn batch_forms_range<C: Cfg>(report: &Report, depth: usize)
+where
+    u64: num_traits::AsPrimitive<C::Pr>,
+{
+    use constriction::stream::{Decode, Encode};
+    use constriction::NonZeroBitArray;
+    use rayon::prelude::*;
+    const P: usize = 2;
+    let letters = crate::models::all_pairs(P as u8);
+    let carry = range_alphabet12::<C>();
+    let mut starts: Vec<Vec<Letter>> = vec![vec![]];
+    for &a in &carry { starts.push(vec![a]); for &b in &carry { starts.push(vec![a, b]); } }
+    let mut seqs: Vec<Vec<Letter>> = vec![vec![]];
+    let mut frontier = seqs.clone();
+    for _ in 0..depth {
+        frontier = frontier.iter().flat_map(|s| letters.iter().map(move |&l| { let mut q = s.clone(); q.push(l); q })).collect();
+        seqs.extend(frontier.iter().cloned());
+    }
+    let raw = |e: &RangeEncoder<C::W, C::S>| { let (b, s, sit) = e.clone().into_raw_parts(); (to_u128(&b), s.lower().into(), s.range().get().into(), match sit { EncoderSituation::Normal => (0usize, 0u128), EncoderSituation::Inverted(n, w) => (n.get(), w.into()) }) };
+    let res: Vec<(u64, u64, Vec<(String, String)>)> = starts.par_iter().map(|st| {
+        let mut n = 0u64;
+        let mut inv = 0u64;
+        let mut bad = vec![];
+        let mut base = RangeEncoder::<C::W, C::S>::new();
+        for &l in st { C::range_encode(&mut base, l).unwrap(); }
+        if range_is_inverted::<C>(&base).is_some() { inv += 1; }
+        for s in &seqs {
+            let mk = |l: &Letter| crate::models::Raw::<C::Pr, P> { c: num_traits::AsPrimitive::as_(l.c), p: num_traits::AsPrimitive::as_(l.p) };
+            let pm = |l: &Letter| crate::models::Part::<C::Pr, P> { c: num_traits::AsPrimitive::as_(l.c), p: num_traits::AsPrimitive::as_(l.p) };
+            let mut a = base.clone();
+            for l in s { a.encode_symbol((), mk(l)).unwrap(); }
+            let want = raw(&a);
+            let mut fail = |what: &str, d: String| bad.push((format!("RangeEncoder/RangeDecoder::{what} | {} | differs from the per-symbol loop", C::NAME), format!("start {:?} batch {:?}: {d}", st, s)));
+            let mut b = base.clone();
+            b.encode_symbols(s.iter().map(|l| ((), mk(l)))).unwrap();
+            if raw(&b) != want { fail("encode_symbols", format!("{:x?} vs {:x?}", raw(&b), want)); }
+            let mut b = base.clone();
+            b.try_encode_symbols(s.iter().map(|l| Ok::<_, ()>(((), mk(l))))).unwrap();
+            if raw(&b) != want { fail("try_encode_symbols", format!("{:x?} vs {:x?}", raw(&b), want)); }
+            if !s.is_empty() && s.iter().all(|l| l == &s[0]) {
+                let mut b = base.clone();
+                b.encode_iid_symbols(s.iter().map(|_| ()), mk(&s[0])).unwrap();
+                if raw(&b) != want { fail("encode_iid_symbols", format!("{:x?} vs {:x?}", raw(&b), want)); }
+            }
+            n += 3;
+            // decoding: skip the start symbols with the loop, then decode the batch in each form
+            let sealed = a.clone().into_compressed().unwrap();
+            let mut d0 = RangeDecoder::<C::W, C::S, _>::from_compressed(sealed).unwrap();
+            let mut ok = true;
+            for &l in st { if !matches!(C::range_decode(&mut d0, l), Ok(1)) { ok = false; break; } }
+            if !ok { continue; } // (a round-trip failure is judged by the walk)
+            let mut dl = d0.clone();
+            let syms: Vec<Option<u8>> = s.iter().map(|l| dl.decode_symbol(pm(l)).ok()).collect();
+            let dwant = { let (_, st2, pt) = dl.clone().into_raw_parts(); (st2.lower().into(), st2.range().get().into(), pt.into()) };
+            let dstate = |d: &RangeDecoder<C::W, C::S, constriction::backends::Cursor<C::W, Vec<C::W>>>| { let (_, st2, pt) = d.clone().into_raw_parts(); let t: (u128, u128, u128) = (st2.lower().into(), st2.range().get().into(), pt.into()); t };
+            let mut d = d0.clone();
+            let got: Vec<Option<u8>> = d.decode_symbols(s.iter().map(|l| pm(l))).map(|r| r.ok()).collect();
+            if got != syms || dstate(&d) != dwant { fail("decode_symbols", format!("{:?} vs {:?}", got, syms)); }
+            let mut d = d0.clone();
+            let got: Vec<Option<u8>> = d.try_decode_symbols(s.iter().map(|l| Ok::<_, ()>(pm(l)))).map(|r| r.ok()).collect();
+            if got != syms || dstate(&d) != dwant { fail("try_decode_symbols", format!("{:?} vs {:?}", got, syms)); }
+            if !s.is_empty() && s.iter().all(|l| l == &s[0]) {
+                let mut d = d0.clone();
+                let m = pm(&s[0]);
+                let got: Vec<Option<u8>> = d.decode_iid_symbols(s.len(), &m).map(|r| r.ok()).collect();
+                if got != syms || dstate(&d) != dwant { fail("decode_iid_symbols", format!("{:?} vs {:?}", got, syms)); }
+            }
+            n += 3;
+            if bad.len() > 12 { break; }
+        }
+        (n, inv, bad)
+    }).collect();
+    let (mut n, mut inv) = (0, 0);
+    let mut seen = std::collections::BTreeMap::<String, u32>::new();
+    for (a, b, bad) in res {
+        n += a; inv += b;
+        for (i, d) in bad { let k = seen.entry(i.clone()).or_insert(0); if *k < 2 { *k += 1; report.violation(crate::report::Violation { identity: i, detail: d, case: json!({"kind": "none"}) }); } }
+    }
+    report.add_transitions(n);
+    report.count("range_batch_form_comparisons", n);
+    report.count("range_batch_start_states_inverted", inv);
+    report.section(json!({"cfg": C::NAME, "part": "batch / fallible / iid forms of the range coder vs the per-symbol loop", "start_states": starts.len(), "batches": seqs.len(), "comparisons": n, "start_states_inverted": inv}));
+}
+
 fn boundary_values(sb: u32, from_bit: u32, width: u128) -> Vec<u128> {
     let top: u128 = if sb == 128 { u128::MAX } else { (1u128 << sb) - 1 };
     let mut v = vec![];
@@ -342,6 +430,9 @@ pub fn run(report: &Report) {
         sync_steps::<U32U64>(report, &boundary_values(64, 0, w), &boundary_values(64, 32, w), &pairs_alphabet::<U32U64>(), "boundary x boundary");
         sync_steps::<U64U128>(report, &boundary_values(128, 0, w), &boundary_values(128, 64, w), &pairs_alphabet::<U64U128>(), "boundary x boundary");
     }
+    batch_forms_range::<U8U16>(report, if q { 3 } else { 4 });
+    batch_forms_range::<U8U32>(report, if q { 3 } else { 4 });
+    batch_forms_range::<U32U64>(report, 2);
     // S = 2W and S = 4W with 8-bit words: every carry situation within depth 6
     explore::<U8U16>(report, &range_alphabet12::<U8U16>(), if q { 6 } else { 7 }, "a12@P8");
     explore::<U8U32>(report, &range_alphabet12::<U8U32>(), if q { 6 } else { 7 }, "a12@P8");
